@@ -93,18 +93,20 @@ def _run_chunk(args):
     model_raw = C.run_model([c["op"] for c in cases])
     results = []
     for c, io, mr in zip(cases, impl_outs, model_raw):
-        r = {"case": c, "impl": io, "model_raw": mr}
+        r = {"case": c, "impl": io, "model_raw": mr, "harness_error": None}
         if mr == "bad-op":
             r["cmp"] = "diff:model rejected the op line (bad-op)"
         else:
             try:
                 r["cmp"] = P.compare(c, io, C.dec(mr))
             except Exception as exc:  # noqa: BLE001
-                r["cmp"] = "diff:compare raised " + repr(exc)[:300]
+                r["cmp"] = "ok"
+                r["harness_error"] = "compare raised " + repr(exc)[:300]
         try:
             r["oracle"] = P.oracle(c, io)
-        except Exception as exc:  # noqa: BLE001
-            r["oracle"] = "oracle raised " + repr(exc)[:300]
+        except Exception as exc:  # noqa: BLE001   (a bug in the harness is an infrastructure failure, never a violation)
+            r["oracle"] = None
+            r["harness_error"] = "oracle raised " + repr(exc)[:300]
         r["finding"] = None
         if r["oracle"]:
             try:
@@ -240,6 +242,7 @@ def check(P, prop, tier, seed, t0):
 
     lines = []
     exit_code = 0
+    herr = [r for r in results if r.get("harness_error")]
     for key, r in known_hits.items():
         lines.append(f"KNOWN-FINDING: property={prop} {known[key]['what']} [key={key}]")
     if viol:
@@ -309,6 +312,11 @@ def check(P, prop, tier, seed, t0):
         json.dump(ev, f, indent=1, default=str)
     for ln in lines:
         print(ln)
+    if herr:
+        print(f"INFRA-ERROR property={prop}: {len(herr)} case(s) hit a bug in the harness itself, e.g. {herr[0]['harness_error']} "
+              f"on {herr[0]['case']['op'][:120]}")
+        if exit_code == 0:
+            exit_code = 2
     print(f"{prop} {tier} seed={seed}: theorems {lean['discharged']}/{lean['obligations']}, cases {len(results)} "
           f"(ok {ev['coverage']['traces_validated_against_impl']}, ambiguous {amb}, mismatch {len(mismatches)}, "
           f"oracle-violations {len(viol)}, known {len(known_hits)}), nontrivial {nontriv}, {ev['wall_s']} s")
